@@ -208,9 +208,13 @@ def run_pinned(prop_id, known):
             for v in other:
                 bad.append((path, v))
         else:  # fixed: suppresses nothing; the pinned world must now pass
+            n_bad = 0
             for v in viols:
                 if not match_known(known, prop_id, v):
                     bad.append((path, v))
+                    n_bad += 1
+            if not n_bad:
+                lines.append(f"pinned regression world of fixed finding {k['id']} passes ({rp})")
     return lines, bad
 
 
